@@ -14,6 +14,7 @@ import (
 	"net/http/httptest"
 	"os"
 	"path/filepath"
+	"runtime"
 	"strings"
 	"sync"
 	"time"
@@ -176,6 +177,30 @@ type Instance struct {
 	Prefix string
 	Spy    *SpyLog
 	Opts   ctfe.InstanceOptions
+	// SlowWriter makes the in-process ResponseWriter consume what handlers write in small chunks,
+	// yielding the processor in between (like a slow network peer). It widens the window in which a
+	// handler that hands out shared or recycled buffers is observable.
+	SlowWriter bool
+}
+
+// slowWriter copies writes chunk by chunk into the recorder, yielding between chunks.
+type slowWriter struct {
+	*httptest.ResponseRecorder
+}
+
+func (w slowWriter) Write(b []byte) (int, error) {
+	n := 0
+	for len(b) > 0 {
+		k := 32
+		if k > len(b) {
+			k = len(b)
+		}
+		w.ResponseRecorder.Write(b[:k])
+		b = b[k:]
+		n += k
+		runtime.Gosched()
+	}
+	return n, nil
 }
 
 // PrivKeyAny wraps a pool key as the Any(keyspb.PrivateKey) the configuration wants.
@@ -261,7 +286,11 @@ func (i *Instance) Do(ctx context.Context, method, path, rawQuery string, body [
 		req = req.WithContext(ctx)
 	}
 	w := httptest.NewRecorder()
-	h.ServeHTTP(w, req)
+	if i.SlowWriter {
+		h.ServeHTTP(slowWriter{w}, req)
+	} else {
+		h.ServeHTTP(w, req)
+	}
 	return Response{Status: w.Code, Body: w.Body.Bytes(), Header: w.Header()}
 }
 
@@ -283,6 +312,8 @@ func (rt RoundTripper) RoundTrip(r *http.Request) (*http.Response, error) {
 	w := httptest.NewRecorder()
 	if !ok {
 		http.NotFound(w, r)
+	} else if rt.Inst.SlowWriter {
+		h.ServeHTTP(slowWriter{w}, r)
 	} else {
 		h.ServeHTTP(w, r)
 	}
